@@ -30,6 +30,7 @@ type Config struct {
 	Name     band.Name
 	Repeater bool
 	Dwell    bool // lorawan.DwellTime400ms
+	Alias    bool // Name is a deprecated name
 }
 
 func (c Config) DwellTime() lorawan.DwellTime {
@@ -53,6 +54,28 @@ func b01(b bool) int {
 func (c Config) Key() string {
 	return fmt.Sprintf("%s:rep=%d:dwell=%d", c.Name, b01(c.Repeater), b01(c.Dwell))
 }
+
+// AliasOrder lists the deprecated names in one fixed order (dumper and harnesses).
+var AliasOrder = []band.Name{band.AS_923, band.AU_915_928, band.CN_470_510, band.CN_779_787, band.EU_433,
+	band.EU_863_870, band.IN_865_867, band.KR_920_923, band.US_902_928, band.RU_864_870}
+
+// Aliases returns the 40 configurations requested through a deprecated name, in the order of
+// BandGen.band_alias_configs; Index continues after the 56 common configurations (the Coq side
+// indexes band_configs ++ band_alias_configs).
+func Aliases() []Config {
+	var out []Config
+	for _, n := range AliasOrder {
+		for _, rep := range []bool{false, true} {
+			for _, dw := range []bool{false, true} {
+				out = append(out, Config{Index: 56 + len(out), Name: n, Repeater: rep, Dwell: dw, Alias: true})
+			}
+		}
+	}
+	return out
+}
+
+// AllWithAliases = All() followed by Aliases().
+func AllWithAliases() []Config { return append(All(), Aliases()...) }
 
 // All returns the 56 configurations in the order of BandGen.band_configs.
 func All() []Config {
